@@ -34,12 +34,12 @@ theorem mnlyReach_true (c : SubCtx) : ∀ (fuel k0 tmp n : Nat),
 /-- `fillMnly` past its entry checks -/
 theorem fillMnly_eq (r : Rule) (p : Inst) (n k : Nat) (hr : WfRule r) (hp : WfInst p) (hcap : capNti r n = some k) :
     fillMnly r p n =
-      if !posPickAnyP r.pos (makeEnum p r).S.length then some [] else
+      if !posPickAnyP r.pos (subEnum p r).S.length then some [] else
       match mnlyReach (mkSubCtx r p k) 1440 0 ((seedT p).H * 60 + (seedT p).M) with
       | none => none
       | some false => some []
       | some true =>
-        (mnlyLoop (mkSubCtx r p k) (makeEnum p r).S.zipIdx (mnlyFuel p.y) p.y p.m p.d (seedT p).H (seedT p).M
+        (mnlyLoop (mkSubCtx r p k) (subEnum p r).S.zipIdx (mnlyFuel p.y) p.y p.m p.d (seedT p).H (seedT p).M
           (ymdGetWday p.y p.m p.d) (getNdom p.y p.m) 0 []).map List.reverse := by
   obtain ⟨hy1, hy2⟩ := hp.year
   obtain ⟨hm1, hm2⟩ := hp.month
@@ -96,7 +96,7 @@ theorem fillMnly_good (r : Rule) (p : Inst) (n : Nat) (l : List Inst) (hr : WfRu
     split at h
     · cases h
     · cases h; intro x hx; cases hx
-    · cases hloop : mnlyLoop (mkSubCtx r p k) (makeEnum p r).S.zipIdx (mnlyFuel p.y) p.y p.m p.d (seedT p).H
+    · cases hloop : mnlyLoop (mkSubCtx r p k) (subEnum p r).S.zipIdx (mnlyFuel p.y) p.y p.m p.d (seedT p).H
           (seedT p).M (ymdGetWday p.y p.m p.d) (getNdom p.y p.m) 0 [] with
       | none => rw [hloop] at h; cases h
       | some acc' =>
@@ -126,7 +126,7 @@ theorem inst_vt (r : Rule) (ds x : Inst) (h : MinutelyInst r ds x) (hy : x.y ≤
 theorem fillMnly_complete_pick (r : Rule) (p : Inst) (n cap : Nat) (l : List Inst) (hr : WfRule r) (hp : WfInst p)
     (hy : 1901 ≤ p.y) (hcap : capNti r n = some cap) (h : fillMnly r p n = some l)
     (x : Inst) (hx : MinutelyInst r (seedT p) x)
-    (hpk : ∀ i, (x.S, i) ∈ (makeEnum p r).S.zipIdx → posPickP r.pos i (makeEnum p r).S.length = true)
+    (hpk : ∀ i, (x.S, i) ∈ (subEnum p r).S.zipIdx → posPickP r.pos i (subEnum p r).S.length = true)
     (hge : absOf (seedT p) ≤ absOf x) (hu : ltP r.untl x = false) (hxy : x.y ≤ 2099) :
     x ∈ l ∨ (l.length = cap ∧ ∀ z ∈ l, ltP z x = true) := by
   obtain ⟨hv, hxms⟩ := inst_vt r _ x hx hxy
@@ -156,10 +156,10 @@ theorem fillMnly_complete_pick (r : Rule) (p : Inst) (n cap : Nat) (l : List Ins
   have hxp := ge_seed p x hp hy hy2 hv (by rw [hxms, tms]) hge
   have hci := ctx_inter r p cap hr
   -- some position is picked
-  have hany : posPickAnyP r.pos (makeEnum p r).S.length = true := by
+  have hany : posPickAnyP r.pos (subEnum p r).S.length = true := by
     obtain ⟨i, hi⟩ := List.mem_iff_getElem?.mp hxs
-    have hil : i < (makeEnum p r).S.length := by
-      by_cases c : i < (makeEnum p r).S.length
+    have hil : i < (subEnum p r).S.length := by
+      by_cases c : i < (subEnum p r).S.length
       · exact c
       · rw [List.getElem?_eq_none (by omega)] at hi; cases hi
     exact posAny_of _ i _ hil (hpk i (List.mem_zipIdx_iff_getElem?.mpr hi))
@@ -179,7 +179,7 @@ theorem fillMnly_complete_pick (r : Rule) (p : Inst) (n cap : Nat) (l : List Ins
     exact ⟨fun h0 => (t_hour r p cap hr x hv).mp h0 l3, fun h0 => (t_min r p cap hr x hv).mp h0 l4⟩
   rw [fillMnly_eq r p n cap hr hp hcap, hany, hreach] at h
   simp only [Bool.not_true, Bool.false_eq_true, if_false] at h
-  cases hloop : mnlyLoop (mkSubCtx r p cap) (makeEnum p r).S.zipIdx (mnlyFuel p.y) p.y p.m p.d (seedT p).H
+  cases hloop : mnlyLoop (mkSubCtx r p cap) (subEnum p r).S.zipIdx (mnlyFuel p.y) p.y p.m p.d (seedT p).H
       (seedT p).M (ymdGetWday p.y p.m p.d) (getNdom p.y p.m) 0 [] with
   | none => rw [hloop] at h; cases h
   | some acc' =>
